@@ -129,6 +129,9 @@ def decorate_faults(rng, spec, n_fault_nodes=None, allow_base=True, p_retry=0.5)
                 plan.append('ok')
         if all(p == 'ok' for p in plan):
             plan[0] = rng.choice(['E1', 'E2', 'E3'])
+        if rng.random() < 0.3:
+            # input-dependent failure: raises only for one half of the argument space
+            plan = [p + '?' if p in ('E1', 'E2', 'E3') else p for p in plan]
         n['plan'] = plan
     for n in names:
         if n in chosen or rng.random() < 0.1:
@@ -153,7 +156,12 @@ def gen_plain(rng, faults=True, n_max=10, profile=None, **kw):
     return spec
 
 
-def gen_rec(rng, faults=True, n_max=10, **kw):
+def gen_rec_outside(rng, faults=True, n_max=10, **kw):
+    """triage only (known finding K05): like gen_rec but a node outside the path may read an inner node"""
+    return gen_rec(rng, faults=faults, n_max=n_max, _allow_outside=True, **kw)
+
+
+def gen_rec(rng, faults=True, n_max=10, _allow_outside=False, **kw):
     """one recurrent subgraph over a plain DAG; no outside reader of an inner node unless it is
     downstream of the destination (carve-out outside_consumer_of_inner_rec_node)"""
     for _ in range(30):
@@ -201,7 +209,7 @@ def gen_rec(rng, faults=True, n_max=10, **kw):
             if a in P and a != dest and b not in P and b not in desc:
                 bad = True
                 break
-        if bad:
+        if bad != _allow_outside:
             continue
         mx = rng.choice([0, 1, 2, 2, 3])
         k = rng.choice([0, 1, 1, 2, 2, 3, mx, mx + 1])
@@ -366,7 +374,7 @@ def gen_input(rng):
     return {k: rng.choice([0, 1, 2, 3, 7, None, '', 'a', 'bc', -1]) for k in sorted(keys)}
 
 
-GENERATORS = {'plain': gen_plain, 'rec': gen_rec, 'rec_nested': gen_rec_nested}
+GENERATORS = {'plain': gen_plain, 'rec': gen_rec, 'rec_nested': gen_rec_nested, 'rec_outside': gen_rec_outside}
 
 
 # ---------------------------------------------------------------------------------------------
@@ -393,7 +401,7 @@ def ancestors(spec, name, preds=None):
 
 
 def _can_fail(node):
-    return any(o != 'ok' for o in (node.get('plan') or ()))
+    return any(o != 'ok' for o in (node.get('plan') or ()))  # 'E1?' counts: it can fail
 
 
 def carve_chained_oneof_with_fallback(spec):
